@@ -41,7 +41,8 @@ func NewMultiReporter(
 	}
 	return &multi{
 		multiBaseReporters: baseReporters,
-		reporters:          r,
+		// n.b. A private copy, r is the caller's slice when called as f(s...).
+		reporters: append([]tally.StatsReporter(nil), r...),
 	}
 }
 
@@ -126,7 +127,8 @@ func NewMultiCachedReporter(
 	}
 	return &multiCached{
 		multiBaseReporters: baseReporters,
-		reporters:          r,
+		// n.b. A private copy, r is the caller's slice when called as f(s...).
+		reporters: append([]tally.CachedStatsReporter(nil), r...),
 	}
 }
 
